@@ -4,7 +4,7 @@ import PkVerif.Gen.C07
 # C07 – permanode attributes and deletions follow the documented claim semantics
 
 Property theorems only.  `Pk.Attr.*` (Model/Attr.lean) models pkg/index corpus.go, util.go, index.go
-and the claim-folding composition of location.go; the spec is `Pk.Attr.Spec` below.
+and the claim-folding composition of location.go; the spec is `Pk.Attr.Spec` (Spec/Attr.lean):
 
 * the value of an attribute at time `T` for a signer is the fold, in claim-date order, of that
   signer's non-deleted set/add/del claims dated ≤ `T` (`Spec.AttrValues`; equal dates are unordered,
@@ -21,39 +21,6 @@ the corpus attribute queries never consult deletions (finding F-C07-1) – state
 `C07_all_paths_agree_partial` (no deleted claim on the permanode) + `C07_all_paths_agree_counterexample`.
 -/
 namespace Pk.Attr
-
-/-! ## the spec -/
-namespace Spec
-
-/-- a claim counts for (attribute, time, signer filter) when it is about that attribute, dated no later
-than `t`, by that signer, and not deleted (a delete-claim row has `step = id`, so it never matters) -/
-def counts (deleted : Nat → Bool) (attr : Bytes) (t : Nat) (f : Option Nat) (c : Claim) : Bool :=
-  decide (c.attr = attr) && decide (c.date ≤ t) && signerOk f c && !deleted c.id
-
-/-- `l` is the claim set `cs` arranged in claim-date order (equal dates in any order) -/
-def IsLin (l cs : List Claim) : Prop := l.Perm cs ∧ Sorted l
-
-/-- the attribute values the documented semantics allow: the fold of SOME date-ordered arrangement -/
-def AttrValues (cs : List Claim) (deleted : Nat → Bool) (attr : Bytes) (t : Nat) (f : Option Nat)
-    (vs : List Bytes) : Prop :=
-  ∃ l, IsLin l cs ∧ vs = foldVals (l.filter (counts deleted attr t f))
-
-/-- the attribute values, as a function (meaningful when dates are pairwise distinct) -/
-def attrValues (cs : List Claim) (deleted : Nat → Bool) (attr : Bytes) (t : Nat) (f : Option Nat) : List Bytes :=
-  foldVals ((sortByDate cs).filter (counts deleted attr t f))
-
-/-- `P` is a deletion predicate for the delete claims `ds`: deleted iff targeted by a delete claim
-that is not itself deleted -/
-def IsDeleted (ds : List Del) (P : Ref → Bool) : Prop :=
-  ∀ x, P x = true ↔ ∃ d ∈ ds, d.target = x ∧ P (.cl d.deleter) = false
-
-end Spec
-
-/-- nothing is deleted -/
-def noDel : Nat → Bool := fun _ => false
-
-theorem counts_noDel (attr : Bytes) (t : Nat) (f : Option Nat) : Spec.counts noDel attr t f = rel attr t f := by
-  funext c; simp [Spec.counts, rel, noDel]
 
 /-! a small history used by the non-vacuity examples: two claims on permanode 0, delivered newest first -/
 def exA : Claim := ⟨1, 7, 0, 0, .set, [116], [111], 2000⟩
@@ -205,21 +172,6 @@ example : valuesAtSigner (incPM [exA, exB]) none 1500 none = none := by decide
 
 /-! ## deletion -/
 
-/-- position of a blob in the arrival order, as far as deletion needs it: ids grow with arrival -/
-def refOrd : Ref → Nat
-  | .pn _ => 0
-  | .cl i => i + 1
-
-/-- every delete claim arrived after its target (refs are hashes: a claim cannot name a later blob) -/
-def World.WF (w : World) : Prop := ∀ d ∈ w.dels, refOrd d.target < d.deleter + 1 ∧ d.deleter ≤ w.maxId
-
-/-- what every delivered history satisfies: ids are bounded by `maxId`, and delete claims follow their targets -/
-structure World.Good (w : World) : Prop where
-  claimIds : ∀ c ∈ w.claims, c.id ≤ w.maxId
-  wf : w.WF
-
-theorem World.good_empty : World.empty.Good := ⟨fun c hc => (by cases hc), fun d hd => (by cases hd)⟩
-
 /-- the hypothesis `World.WF` of the deletion theorems is not an extra assumption about histories: it
 holds after any sequence of deliveries (`addClaim`, `addDelete` are what the driver executes) -/
 theorem C07_deliveries_wf (w w' : World) (hg : w.Good) :
@@ -303,36 +255,6 @@ theorem C07_deliveries_wf (w w' : World) (hg : w.Good) :
             simp [refOrd]
 
 example : (World.empty.addClaim exA).bind (fun w => w.addDelete ⟨.cl 1, 2, 0, 10, 0⟩) ≠ none := by decide
-
-theorem World.delWF (w : World) (hw : w.WF) (m : Mode) : DelWF (w.deletes m) refOrd w.fuel := by
-  constructor
-  · intro d hd
-    exact (hw d ((w.mem_deletes m d).mp hd)).1
-  · intro d hd
-    have := (hw d ((w.mem_deletes m d).mp hd)).2
-    simp only [refOrd, World.fuel]; omega
-
-theorem isDeleted_bool_iff (ds : List Del) (P : Ref → Bool) :
-    Spec.IsDeleted ds P ↔
-      ∀ x, P x = (ds.filter (fun d => decide (d.target = x))).any (fun d => !P (.cl d.deleter)) := by
-  unfold Spec.IsDeleted
-  constructor
-  · intro h x
-    rw [Bool.eq_iff_iff, h x, List.any_eq_true]
-    constructor
-    · rintro ⟨d, hd, ht, hp⟩
-      exact ⟨d, List.mem_filter.mpr ⟨hd, by simpa using ht⟩, by simp [hp]⟩
-    · rintro ⟨d, hd, hp⟩
-      rw [List.mem_filter] at hd
-      exact ⟨d, hd.1, by simpa using hd.2, by simpa using hp⟩
-  · intro h x
-    rw [h x, List.any_eq_true]
-    constructor
-    · rintro ⟨d, hd, hp⟩
-      rw [List.mem_filter] at hd
-      exact ⟨d, hd.1, by simpa using hd.2, by simpa using hp⟩
-    · rintro ⟨d, hd, ht, hp⟩
-      exact ⟨d, List.mem_filter.mpr ⟨hd, by simpa using ht⟩, by simp [hp]⟩
 
 /-- **both recursions are the spec, at any delete/undelete depth**: on each of the three paths
 (Index.isDeleted over the deletes cache, Corpus.IsDeleted over the live corpus's map and over the map
